@@ -108,6 +108,14 @@ type c16gen struct {
 	eqs     strings.Builder
 	fillSet map[string]bool
 	eqSet   map[string]bool
+	eqPrefix string
+}
+
+func (g *c16gen) eqName(n string) string {
+	if g.eqPrefix == "" {
+		return "verifC16Eq_" + n
+	}
+	return g.eqPrefix + n
 }
 
 func (g *c16gen) emitFill(name string) {
@@ -188,10 +196,10 @@ func (g *c16gen) eqStmts(t *GoType, a, b string, depth int) string {
 		return fmt.Sprintf("%sok = verifAnd(ok, verifC16EqTags(&%s, &%s))\n", ind, a, b)
 	case "struct":
 		g.emitEq(t.Name)
-		return fmt.Sprintf("%sok = verifAnd(ok, verifC16Eq_%s(&%s, &%s))\n", ind, t.Name, a, b)
+		return fmt.Sprintf("%sok = verifAnd(ok, %s(&%s, &%s))\n", ind, g.eqName(t.Name), a, b)
 	case "ptr":
 		g.emitEq(t.Name)
-		return fmt.Sprintf("%sif (%s == nil) != (%s == nil) {\n%s\treturn false\n%s}\n%sif %s != nil {\n%s\tok = verifAnd(ok, verifC16Eq_%s(%s, %s))\n%s}\n", ind, a, b, ind, ind, ind, a, ind, t.Name, a, b, ind)
+		return fmt.Sprintf("%sif (%s == nil) != (%s == nil) {\n%s\treturn false\n%s}\n%sif %s != nil {\n%s\tok = verifAnd(ok, %s(%s, %s))\n%s}\n", ind, a, b, ind, ind, ind, a, ind, g.eqName(t.Name), a, b, ind)
 	case "slice":
 		iv := fmt.Sprintf("i%d", depth)
 		inner := g.eqStmts(t.Elem, fmt.Sprintf("%s[%s]", a, iv), fmt.Sprintf("%s[%s]", b, iv), depth+1)
@@ -210,7 +218,7 @@ func (g *c16gen) emitEq(name string) {
 	for _, f := range st.Fields {
 		body.WriteString(g.eqStmts(f.T, "a."+f.Name, "b."+f.Name, 1))
 	}
-	fmt.Fprintf(&g.eqs, "func verifC16Eq_%s(a, b *%s) bool {\n\tok := true\n%s\treturn ok\n}\n\n", name, name, body.String())
+	fmt.Fprintf(&g.eqs, "func %s(a, b *%s) bool {\n\tok := true\n%s\treturn ok\n}\n\n", g.eqName(name), name, body.String())
 }
 
 func genC16(gm *GoModel) {
